@@ -9,6 +9,7 @@ import Y0.Lemmas.PrintExpr
 import Y0.Lemmas.PrintEvalExpr
 import Y0.Lemmas.PrintDenEval
 import Y0.Lemmas.PrintBalanced
+import Y0.Lemmas.PrintClosed
 
 namespace Y0
 namespace C12
@@ -106,6 +107,43 @@ theorem parse_print_total (lt : Expr → Expr → Bool) (e : Expr) (hb : built l
     ∃ e', PyEval.parseY0 lt (Print.expr e) = .ok e' :=
   let ⟨e', h, _⟩ := parse_print_den lt e hb
   ⟨e', h⟩
+
+/-! ## 4. `built` is closed under the operators: everything obtained from built operands with `*`, `/`, `Sum[…]`
+is built again, so the three clauses above apply to it.  The sort order only has to be asymmetric (`asymm_exprLt`:
+the pinned `_get_key` order is).
+
+-- OPEN: built_closed_builders — the same for the leaf builders: `eval lt a = .ok (.expr (.prob pop c p))` (an application
+--   of `P` / `P[…]` / `PP[…]` / `Q[…]` to arguments that mention each name once) implies `built lt (.prob pop c p)`.
+--   Needs: `sortBy` output is name-increasing when the names are distinct.  Until then this part of "every expression
+--   built through the public operators is `built`" is decided by the model on every Python-built object of every run
+--   (correspondence stream `domain`). -/
+
+theorem built_closed_mul (lt : Expr → Expr → Bool) (hasym : Asymm lt) (a b c : Expr) (ha : built lt a = true)
+    (hb : built lt b = true) (hc : PyEval.mul lt a b = .ok c) : built lt c = true :=
+  built_mul lt hasym a b c ha hb hc
+
+theorem built_closed_div (lt : Expr → Expr → Bool) (hasym : Asymm lt) (a b c : Expr) (ha : built lt a = true)
+    (hb : built lt b = true) (hc : PyEval.div lt a b = .ok c) : built lt c = true :=
+  built_div lt hasym a b c ha hb hc
+
+theorem built_closed_sum (lt : Expr → Expr → Bool) (e c : Expr) (rs : List Var) (he : built lt e = true)
+    (hinc : incBy Var.name rs = true) (hplain : rs.all plainVar = true) (hc : PyEval.sumSafe e rs = .ok c) :
+    built lt c = true :=
+  built_sumSafe lt e c rs he hinc hplain hc
+
+/-- the order of the pinned `_get_key` is asymmetric, so the closure theorems apply to it -/
+theorem pinned_order_asymm : Asymm PyEval.exprLt := asymm_exprLt
+
+/-- `a * b` and `a / b` of built, `Zero()`-free operands never raise and mean product and quotient -/
+theorem mul_total_den (lt : Expr → Expr → Bool) (a b : Expr) (ha : nz a = true) (hb : nz b = true) :
+    ∃ c, PyEval.mul lt a b = .ok c ∧ ∀ (env : Env) (σ' σ : Y0.Val), den env σ' c σ = den env σ' a σ * den env σ' b σ :=
+  let ⟨c, h1, _, h3⟩ := mul_ok lt a ha b hb
+  ⟨c, h1, h3⟩
+
+theorem div_total_den (lt : Expr → Expr → Bool) (a b : Expr) (ha : nz a = true) (hb : nz b = true) :
+    ∃ c, PyEval.div lt a b = .ok c ∧ ∀ (env : Env) (σ' σ : Y0.Val), den env σ' c σ = den env σ' a σ / den env σ' b σ :=
+  let ⟨c, h1, _, h3⟩ := div_ok lt a b ha hb
+  ⟨c, h1, h3⟩
 
 /-! non-vacuity: a well-formed expression with a product denominator, a fraction factor, a level-2 probability and a
 counterfactual variable; its printed form and its tree -/
